@@ -11,9 +11,13 @@ package memefish
 // Vocabulary
 //
 // TokOK: the current token lies inside the buffer and ends where the lexer stands.
-// @ spec TokOK(l) = 0 <= l.Token.Pos && l.Token.Pos <= l.Token.End && l.Token.End == l.pos && (l.Token.Kind == "<eof>" ==> l.Token.Pos == len(l.Buffer)) && (l.Token.Kind == ">>" ==> l.Token.End == l.Token.Pos + 2) && (l.Token.Kind != ">" ==> len(l.Token.Raw) == l.Token.End - l.Token.Pos) && (!literalKind(l.Token.Kind) ==> l.Token.End - l.Token.Pos == len(l.Token.Kind)) && (l.Token.Kind == "<param>" ==> len(l.Token.AsString) == l.Token.End - l.Token.Pos - 1)
+// @ spec TokOK(l) = 0 <= l.Token.Pos && l.Token.Pos <= l.Token.End && l.Token.End == l.pos && (l.Token.Kind == "<eof>" ==> l.Token.Pos == len(l.Buffer)) && (l.Token.Kind == ">>" ==> l.Token.End == l.Token.Pos + 2) && (l.Token.Kind != ">" ==> len(l.Token.Raw) == l.Token.End - l.Token.Pos && (isSub(l.Token.Raw, l.Buffer, l.Token.Pos, l.Token.End) || (l.Token.Kind == "<bad>" && l.Token.Pos == l.Token.End))) && (!literalKind(l.Token.Kind) ==> l.Token.End - l.Token.Pos == len(l.Token.Kind)) && (l.Token.Kind == "<param>" ==> len(l.Token.AsString) == l.Token.End - l.Token.Pos - 1)
 // a token that is neither <eof> nor <bad> nor the zero token is not empty (this is what makes the parser advance)
 // @ spec nonEmptyTok(l) = l.Token.Kind == "<eof>" || l.Token.Kind == "" || l.Token.Pos < l.Token.End || (l.Token.Kind == "<bad>" && l.Token.Pos == len(l.Buffer))
+// the spelling recorded in the current token has the length of its range (the '>' left over from a '>>'
+// split by the type-error handler is the one exception, and it is never current where a recovery point starts)
+// @ spec faithful(l) = len(l.Token.Raw) == l.Token.End - l.Token.Pos
+// @ spec faithfulW(l) = faithful(l) || l.Token.Kind == ">"
 // @ spec ParserInv0(p) = p != nil && p.Lexer != nil && LexInv(p.Lexer) && TokOK(p.Lexer) && nonEmptyTok(p.Lexer)
 // after the first token has been read the current token is never the zero token
 // @ spec ParserInv(p) = ParserInv0(p) && p.Lexer.Token.Kind != ""
@@ -28,9 +32,12 @@ package memefish
 // @ schema parsernp memefish\.\(\*Parser\)\.(parseAllOrDistinct|parseIfExists|parseIfNotExists|parsePipeOperators|parsePropertyGraphLabelAndPropertiesList|parseSelectResults|parsePrivilege|parseArg|parseSequenceParams)
 // @   props C03 C09
 // @   requires ParserInv(p)
+// @   requires[C10] faithful: faithful(p.Lexer)
 // @   requires[C04] wfargs: wfArgs()
 // @   requires[C05] argpos: argsWithin()
 // @   ensures ParserInv(p)
+// @   ensures[C10] faithfulw: faithfulW(p.Lexer)
+// @   ensures[C10] faithful: strong(self) ==> faithful(p.Lexer)
 // @   ensures (p.Lexer == old(p.Lexer) || fresh(p.Lexer)) && p.Lexer.File == old(p.Lexer.File)
 // @   ensures p.Lexer.Token.Pos >= old(p.Lexer.Token.Pos)
 // @   ensures[C09] errs: len(p.errors) >= old(len(p.errors))
@@ -42,6 +49,7 @@ package memefish
 // @   panics when true
 // @   modifies p.Lexer, p.errors, cur(p.Lexer).pos, cur(p.Lexer).Token.*, cur(p.Lexer).lastTokenKind, cur(p.Lexer).dotIdent, p.Lexer.File.lines
 // @   loop * invariant ParserInv(p) && (p.Lexer == old(p.Lexer) || fresh(p.Lexer)) && p.Lexer.File == old(p.Lexer.File) && p.Lexer.Token.Pos >= old(p.Lexer.Token.Pos) && len(p.errors) >= old(len(p.errors))
+// @   loop * invariant[C10] faithfull: faithful(p.Lexer)
 // @   loop * invariant[C04] wfl: wfLocals()
 // @   loop * invariant[C05] pfl: pfLocals()
 // @   loop * decreases len(p.Lexer.Buffer) - p.Lexer.Token.Pos
@@ -49,9 +57,12 @@ package memefish
 // @ schema parser memefish\.\(\*Parser\)\.parse\w+ except memefish\.\(\*Parser\)\.(parseTableNameSuffix|parsePathTableExprSuffix|parseUnnestSuffix)
 // @   props C03 C09
 // @   requires ParserInv(p)
+// @   requires[C10] faithful: faithful(p.Lexer)
 // @   requires[C04] wfargs: wfArgs()
 // @   requires[C05] argpos: argsWithin()
 // @   ensures ParserInv(p)
+// @   ensures[C10] faithfulw: faithfulW(p.Lexer)
+// @   ensures[C10] faithful: strong(self) ==> faithful(p.Lexer)
 // @   ensures (p.Lexer == old(p.Lexer) || fresh(p.Lexer)) && p.Lexer.File == old(p.Lexer.File)
 // @   ensures p.Lexer.Token.Pos >= old(p.Lexer.Token.Pos)
 // @   ensures[C09] errs: len(p.errors) >= old(len(p.errors))
@@ -65,6 +76,7 @@ package memefish
 // @   panics when true
 // @   modifies p.Lexer, p.errors, cur(p.Lexer).pos, cur(p.Lexer).Token.*, cur(p.Lexer).lastTokenKind, cur(p.Lexer).dotIdent, p.Lexer.File.lines
 // @   loop * invariant ParserInv(p) && (p.Lexer == old(p.Lexer) || fresh(p.Lexer)) && p.Lexer.File == old(p.Lexer.File) && p.Lexer.Token.Pos >= old(p.Lexer.Token.Pos) && len(p.errors) >= old(len(p.errors))
+// @   loop * invariant[C10] faithfull: faithful(p.Lexer)
 // @   loop * invariant[C04] wfl: wfLocals()
 // @   loop * invariant[C05] pfl: pfLocals()
 // @   loop * decreases len(p.Lexer.Buffer) - p.Lexer.Token.Pos
@@ -72,9 +84,12 @@ package memefish
 // @ schema parseropt memefish\.\(\*Parser\)\.tryParse\w+
 // @   props C03 C09
 // @   requires ParserInv(p)
+// @   requires[C10] faithful: faithful(p.Lexer)
 // @   requires[C04] wfargs: wfArgs()
 // @   requires[C05] argpos: argsWithin()
 // @   ensures ParserInv(p)
+// @   ensures[C10] faithfulw: faithfulW(p.Lexer)
+// @   ensures[C10] faithful: strong(self) ==> faithful(p.Lexer)
 // @   ensures (p.Lexer == old(p.Lexer) || fresh(p.Lexer)) && p.Lexer.File == old(p.Lexer.File)
 // @   ensures p.Lexer.Token.Pos >= old(p.Lexer.Token.Pos)
 // @   ensures[C09] errs: len(p.errors) >= old(len(p.errors))
@@ -85,6 +100,7 @@ package memefish
 // @   panics when true
 // @   modifies p.Lexer, p.errors, cur(p.Lexer).pos, cur(p.Lexer).Token.*, cur(p.Lexer).lastTokenKind, cur(p.Lexer).dotIdent, p.Lexer.File.lines
 // @   loop * invariant ParserInv(p) && (p.Lexer == old(p.Lexer) || fresh(p.Lexer)) && p.Lexer.File == old(p.Lexer.File) && p.Lexer.Token.Pos >= old(p.Lexer.Token.Pos) && len(p.errors) >= old(len(p.errors))
+// @   loop * invariant[C10] faithfull: faithful(p.Lexer)
 // @   loop * invariant[C04] wfl: wfLocals()
 // @   loop * invariant[C05] pfl: pfLocals()
 // @   loop * decreases len(p.Lexer.Buffer) - p.Lexer.Token.Pos
@@ -94,15 +110,19 @@ package memefish
 // @ schema lookahead memefish\.\(\*Parser\)\.lookahead\w+
 // @   props C03 C09
 // @   requires ParserInv(p)
+// @   requires[C10] faithful: faithful(p.Lexer)
 // @   requires[C04] wfargs: wfArgs()
 // @   requires[C05] argpos: argsWithin()
 // @   ensures ParserInv(p)
+// @   ensures[C10] faithfulw: faithfulW(p.Lexer)
+// @   ensures[C10] faithful: strong(self) ==> faithful(p.Lexer)
 // @   ensures (p.Lexer == old(p.Lexer) || fresh(p.Lexer)) && p.Lexer.File == old(p.Lexer.File)
 // @   ensures[C09] restored: p.Lexer.pos == old(p.Lexer.pos) && p.Lexer.Token == old(p.Lexer.Token) && p.Lexer.lastTokenKind == old(p.Lexer.lastTokenKind) && p.Lexer.dotIdent == old(p.Lexer.dotIdent)
 // @   ensures[C09] errs: p.errors == old(p.errors)
 // @   panics when true
 // @   modifies p.Lexer, cur(p.Lexer).pos, cur(p.Lexer).Token.*, cur(p.Lexer).lastTokenKind, cur(p.Lexer).dotIdent, p.Lexer.File.lines
 // @   loop * invariant ParserInv(p) && p.Lexer == old(p.Lexer) && p.errors == old(p.errors)
+// @   loop * invariant[C10] faithfull: faithful(p.Lexer)
 // @   loop * decreases 2 * (len(p.Lexer.Buffer) - p.Lexer.Token.Pos) + ite(p.Lexer.Token.Kind == "<eof>", 0, 1)
 
 // ---------------------------------------------------------------------------------------------
@@ -112,6 +132,7 @@ package memefish
 // @   props C03 C10
 // @   requires t != nil
 // @   ensures result != nil && fresh(result) && result.Kind == t.Kind && result.Pos == t.Pos && result.End == t.End && result.Raw == t.Raw && result.AsString == t.AsString && result.Space == t.Space && result.Base == t.Base && result.Comments == t.Comments
+// @   ensures[C10] sameraw: isSub(result.Raw, t.Raw, 0, len(t.Raw))
 // @   modifies nothing
 
 // @ func token.(*Token).IsIdent
@@ -132,6 +153,8 @@ package memefish
 // @ func memefish.(*Parser).nextToken
 // @   props C03 C09
 // @   requires ParserInv0(p)
+// @   ensures[C10] faithfulw: faithfulW(p.Lexer)
+// @   ensures[C10] faithful: strong(self) ==> faithful(p.Lexer)
 // @   ensures ParserInv(p) && p.Lexer == old(p.Lexer)
 // @   ensures p.Lexer.Token.Pos >= old(p.Lexer.Token.End) && p.Lexer.Token.Kind != "<bad>" && p.Lexer.Token.Kind != "" && p.Lexer.File == old(p.Lexer.File)
 // @   ensures p.Lexer.Token.Kind != "<eof>" ==> p.Lexer.pos > old(p.Lexer.pos)
@@ -142,6 +165,8 @@ package memefish
 // @ func memefish.(*Parser).nextTokenOrBad
 // @   props C03 C09
 // @   requires ParserInv0(p)
+// @   ensures[C10] faithfulw: faithfulW(p.Lexer)
+// @   ensures[C10] faithful: strong(self) ==> faithful(p.Lexer)
 // @   ensures ParserInv(p) && (p.Lexer == old(p.Lexer) || fresh(p.Lexer)) && p.Lexer.File == old(p.Lexer.File)
 // @   ensures p.Lexer.Token.Pos >= old(p.Lexer.Token.End)
 // @   ensures[C09] errs: len(p.errors) >= old(len(p.errors))
@@ -167,6 +192,8 @@ package memefish
 // @ func memefish.(*Parser).expect
 // @   props C03 C09
 // @   requires ParserInv(p)
+// @   ensures[C10] faithfulw: faithfulW(p.Lexer)
+// @   ensures[C10] faithful: strong(self) ==> faithful(p.Lexer)
 // @   ensures ParserInv(p) && p.Lexer == old(p.Lexer)
 // @   ensures result != nil && fresh(result) && result.Kind == old(p.Lexer.Token.Kind) && old(p.Lexer.Token.Kind) == kind && result.Pos == old(p.Lexer.Token.Pos) && result.End == old(p.Lexer.Token.End) && result.Raw == old(p.Lexer.Token.Raw) && result.AsString == old(p.Lexer.Token.AsString)
 // @   ensures p.Lexer.Token.Pos >= result.End && p.Lexer.Token.Kind != "<bad>" && result.Pos <= result.End && p.Lexer.File == old(p.Lexer.File)
@@ -179,6 +206,8 @@ package memefish
 // @ func memefish.(*Parser).expectIdent
 // @   props C03 C09
 // @   requires ParserInv(p)
+// @   ensures[C10] faithfulw: faithfulW(p.Lexer)
+// @   ensures[C10] faithful: strong(self) ==> faithful(p.Lexer)
 // @   ensures ParserInv(p) && p.Lexer == old(p.Lexer)
 // @   ensures result != nil && fresh(result) && result.Kind == "<ident>" && result.Pos == old(p.Lexer.Token.Pos) && result.End == old(p.Lexer.Token.End) && result.Pos < result.End
 // @   ensures p.Lexer.Token.Pos >= result.End && p.Lexer.Token.Pos > old(p.Lexer.Token.Pos) && p.Lexer.File == old(p.Lexer.File)
@@ -189,6 +218,8 @@ package memefish
 // @ func memefish.(*Parser).expectKeywordLike
 // @   props C03 C09
 // @   requires ParserInv(p)
+// @   ensures[C10] faithfulw: faithfulW(p.Lexer)
+// @   ensures[C10] faithful: strong(self) ==> faithful(p.Lexer)
 // @   ensures ParserInv(p) && p.Lexer == old(p.Lexer)
 // @   ensures result != nil && fresh(result) && result.Kind == "<ident>" && result.Pos == old(p.Lexer.Token.Pos) && result.End == old(p.Lexer.Token.End) && result.Pos < result.End
 // @   ensures p.Lexer.Token.Pos >= result.End && p.Lexer.Token.Pos > old(p.Lexer.Token.Pos) && p.Lexer.File == old(p.Lexer.File)
@@ -216,13 +247,24 @@ package memefish
 // @   panics never
 // @   modifies p.errors, p.Lexer
 
+// The skipped tokens of a Bad node (C10): clones of the tokens that were current, in order, each
+// spelled by its own range of the input, contiguous (nothing but trivia between two of them), the
+// first starting at the recovery point and the last ending at the recorded end.
+// @ spec tokOK(t, buf) = t != nil && 0 <= t.Pos && t.Pos <= t.End && t.End <= len(buf) && len(t.Raw) == t.End - t.Pos && (t.Kind != ">" ==> isSub(t.Raw, buf, t.Pos, t.End) || (t.Kind == "<bad>" && t.Pos == t.End))
+// a token records trivia (blank space or comments) before it exactly when it does not start where the previous one ended
+// @ spec gapTok(t) = len(t.Space) > 0 || len(t.Comments) > 0
+// @ spec tokensOK(ts, buf, pos, end) = (len(ts) == 0 ==> end == pos) && (len(ts) > 0 ==> ts[0].Pos == pos && ts[len(ts) - 1].End == end) && (forall k: 0 <= k && k < len(ts) ==> tokOK(ts[k], buf) && fresh(ts[k]) && (k + 1 < len(ts) ==> ts[k].End <= ts[k + 1].Pos && gapTok(ts[k + 1]) == (ts[k].End < ts[k + 1].Pos)))
+
 // @ schema handler memefish\.\(\*Parser\)\.handleParse\w+Error
 // @   props C03 C09 C10
 // @   requires p != nil && isErr(r) && l != nil
 // @   requires lex: LexInv(l)
 // @   requires tok: TokOK(l)
 // @   requires ne: nonEmptyTok(l) && l.Token.Kind != ""
+// @   requires[C10] lfaithful: faithful(l)
 // @   ensures ParserInv(p) && p.Lexer == l && l.File == old(l.File) && freshRef(result)
+// @   ensures[C10] faithfulw: faithfulW(p.Lexer)
+// @   ensures[C10] faithful: strong(self) ==> faithful(p.Lexer)
 // @   ensures p.Lexer.Token.Pos >= old(l.Token.Pos)
 // @   ensures[C09] recorded: len(p.errors) == old(len(p.errors)) + 1
 // @   ensures[C04] nonnil: notNil(result)
@@ -235,26 +277,51 @@ package memefish
 
 // @ func memefish.(*Parser).handleParseStatementError
 // @   inherit handler
+// @   ensures[C10] captured: result != nil && result.NodePos == old(l.Token.Pos) && result.NodeEnd <= p.Lexer.Token.Pos && tokensOK(result.Tokens, l.Buffer, result.NodePos, result.NodeEnd)
+// @   loop 0 invariant[C10] toks: tokensOK(tokens, l.Buffer, pos, end)
+// @   loop 0 invariant[C10] fl: faithful(l)
+// @   loop 0 invariant[C10] gapcur: len(tokens) > 0 ==> (len(l.Token.Space) > 0 || len(l.Token.Comments) > 0) == (l.Token.Pos > end)
+// @   loop 0 invariant[C10] first: len(tokens) == 0 ==> l.Token.Pos == pos
 // @   loop 0 invariant[C05,C10] span: pos == old(l.Token.Pos) && pos <= end && end <= l.Token.Pos
 // @   loop 0 invariant p.Lexer == l && ParserInv(p) && l.File == old(l.File) && l.Token.Pos >= old(l.Token.Pos) && len(p.errors) == old(len(p.errors)) + 1
+// @   loop 0 invariant[C10] faithfull: faithful(p.Lexer)
 // @   loop 0 decreases 2 * (len(l.Buffer) - l.pos) + ite(l.Token.Kind == "<eof>", 0, 1)
 
 // @ func memefish.(*Parser).handleParseQueryExprError
 // @   inherit handler
+// @   ensures[C10] captured: result.BadNode != nil && result.BadNode.NodePos == old(l.Token.Pos) && result.BadNode.NodeEnd <= p.Lexer.Token.Pos && tokensOK(result.BadNode.Tokens, l.Buffer, result.BadNode.NodePos, result.BadNode.NodeEnd)
+// @   loop 0 invariant[C10] toks: tokensOK(tokens, l.Buffer, pos, end)
+// @   loop 0 invariant[C10] fl: faithful(l)
+// @   loop 0 invariant[C10] gapcur: len(tokens) > 0 ==> (len(l.Token.Space) > 0 || len(l.Token.Comments) > 0) == (l.Token.Pos > end)
+// @   loop 0 invariant[C10] first: len(tokens) == 0 ==> l.Token.Pos == pos
 // @   loop 0 invariant[C05,C10] span: pos == old(l.Token.Pos) && pos <= end && end <= l.Token.Pos
 // @   loop 0 invariant p.Lexer == l && ParserInv(p) && l.File == old(l.File) && l.Token.Pos >= old(l.Token.Pos) && len(p.errors) == old(len(p.errors)) + 1
+// @   loop 0 invariant[C10] faithfull: faithful(p.Lexer)
 // @   loop 0 decreases 2 * (len(l.Buffer) - l.pos) + ite(l.Token.Kind == "<eof>", 0, 1)
 
 // @ func memefish.(*Parser).handleParseExprError
 // @   inherit handler
+// @   ensures[C10] captured: result.BadNode != nil && result.BadNode.NodePos == old(l.Token.Pos) && result.BadNode.NodeEnd <= p.Lexer.Token.Pos && tokensOK(result.BadNode.Tokens, l.Buffer, result.BadNode.NodePos, result.BadNode.NodeEnd)
+// @   loop 0 invariant[C10] toks: tokensOK(tokens, l.Buffer, pos, end)
+// @   loop 0 invariant[C10] fl: faithful(l)
+// @   loop 0 invariant[C10] gapcur: len(tokens) > 0 ==> (len(l.Token.Space) > 0 || len(l.Token.Comments) > 0) == (l.Token.Pos > end)
+// @   loop 0 invariant[C10] first: len(tokens) == 0 ==> l.Token.Pos == pos
 // @   loop 0 invariant[C05,C10] span: pos == old(l.Token.Pos) && pos <= end && end <= l.Token.Pos
 // @   loop 0 invariant p.Lexer == l && ParserInv(p) && l.File == old(l.File) && l.Token.Pos >= old(l.Token.Pos) && len(p.errors) == old(len(p.errors)) + 1
+// @   loop 0 invariant[C10] faithfull: faithful(p.Lexer)
 // @   loop 0 decreases 2 * (len(l.Buffer) - l.pos) + ite(l.Token.Kind == "<eof>", 0, 1)
 
 // @ func memefish.(*Parser).handleParseTypeError
 // @   inherit handler
+// @   weak
+// @   ensures[C10] captured: result.BadNode != nil && result.BadNode.NodePos == old(l.Token.Pos) && result.BadNode.NodeEnd <= p.Lexer.Token.Pos && tokensOK(result.BadNode.Tokens, l.Buffer, result.BadNode.NodePos, result.BadNode.NodeEnd)
+// @   loop 0 invariant[C10] toks: tokensOK(tokens, l.Buffer, pos, end)
+// @   loop 0 invariant[C10] fl: faithful(l)
+// @   loop 0 invariant[C10] gapcur: len(tokens) > 0 ==> (len(l.Token.Space) > 0 || len(l.Token.Comments) > 0) == (l.Token.Pos > end)
+// @   loop 0 invariant[C10] first: len(tokens) == 0 ==> l.Token.Pos == pos
 // @   loop 0 invariant[C05,C10] span: pos == old(l.Token.Pos) && pos <= end && end <= l.Token.Pos
 // @   loop 0 invariant p.Lexer == l && ParserInv(p) && l.File == old(l.File) && l.Token.Pos >= old(l.Token.Pos) && len(p.errors) == old(len(p.errors)) + 1
+// @   loop 0 invariant[C10] faithfull: faithful(p.Lexer)
 // @   loop 0 decreases 2 * (len(l.Buffer) - l.pos) + ite(l.Token.Kind == "<eof>", 0, 1)
 
 // ---------------------------------------------------------------------------------------------
@@ -273,6 +340,7 @@ package memefish
 // @   inherit parser
 // @   panics never
 // @   loop 0 invariant lx: p.Lexer != l && CloneOK(l) && l.File == p.Lexer.File
+// @   loop 0 invariant[C10] lfaithful: faithful(l)
 // @   loop 0 invariant[C05] pfq: pf(query) && within(query, lowerBound(), p.Lexer.Token.Pos)
 // @   loop 0 invariant nn: notNil(query)
 // @   loop 0 invariant wfq: wf(query)
@@ -286,6 +354,7 @@ package memefish
 // @   panics never
 // @ func memefish.(*Parser).parseType
 // @   inherit parser
+// @   weak
 // @   panics never
 // @ func memefish.(*Parser).parseDDL
 // @   inherit parser
@@ -304,7 +373,10 @@ package memefish
 // @   props C03 C09
 // @   fparam doParse parser
 // @   requires ParserInv(p)
+// @   requires[C10] faithful: faithful(p.Lexer)
 // @   ensures ParserInv(p) && (p.Lexer == old(p.Lexer) || fresh(p.Lexer)) && p.Lexer.File == old(p.Lexer.File)
+// @   ensures[C10] faithfulw: faithfulW(p.Lexer)
+// @   ensures[C10] faithful: strong(doParse) ==> faithful(p.Lexer)
 // @   ensures p.Lexer.Token.Pos >= old(p.Lexer.Token.Pos)
 // @   ensures[C09] errs: len(p.errors) >= old(len(p.errors))
 // @   ensures len(result) >= 1
@@ -317,13 +389,17 @@ package memefish
 // @   panics when true
 // @   modifies p.Lexer, p.errors, cur(p.Lexer).pos, cur(p.Lexer).Token.*, cur(p.Lexer).lastTokenKind, cur(p.Lexer).dotIdent, p.Lexer.File.lines
 // @   loop 0 invariant ParserInv(p) && (p.Lexer == old(p.Lexer) || fresh(p.Lexer)) && p.Lexer.File == old(p.Lexer.File) && p.Lexer.Token.Pos >= old(p.Lexer.Token.Pos) && len(p.errors) >= old(len(p.errors)) && len(nodes) >= 1 && wf(nodes) && pf(nodes) && within(nodes, old(p.Lexer.Token.Pos), p.Lexer.Token.Pos)
+// @   loop 0 invariant[C10] faithfull: faithfulW(p.Lexer) && (strong(doParse) ==> faithful(p.Lexer))
 // @   loop 0 decreases len(p.Lexer.Buffer) - p.Lexer.Token.Pos
 
 // @ func memefish.parseStatements
 // @   props C03 C09
 // @   fparam doParse recovering
 // @   requires ParserInv(p)
+// @   requires[C10] faithful: faithful(p.Lexer) && strong(doParse)
 // @   ensures ParserInv(p) && (p.Lexer == old(p.Lexer) || fresh(p.Lexer)) && p.Lexer.File == old(p.Lexer.File)
+// @   ensures[C10] faithfulw: faithfulW(p.Lexer)
+// @   ensures[C10] faithful: strong(doParse) ==> faithful(p.Lexer)
 // @   ensures[C09] errs: len(p.errors) >= old(len(p.errors))
 // @   ensures[C04] wf: wf(result)
 // @   ensures[C07] precdef: precOK(result)
@@ -332,15 +408,19 @@ package memefish
 // @   panics never
 // @   modifies p.Lexer, p.errors, cur(p.Lexer).pos, cur(p.Lexer).Token.*, cur(p.Lexer).lastTokenKind, cur(p.Lexer).dotIdent, p.Lexer.File.lines
 // @   loop 0 invariant ParserInv(p) && (p.Lexer == old(p.Lexer) || fresh(p.Lexer)) && p.Lexer.File == old(p.Lexer.File) && len(p.errors) >= old(len(p.errors)) && wf(nodes)
+// @   loop 0 invariant[C10] faithfull: faithfulW(p.Lexer) && (strong(doParse) ==> faithful(p.Lexer))
 // @   loop 0 decreases 2 * (len(p.Lexer.Buffer) - p.Lexer.Token.Pos) + ite(p.Lexer.Token.Kind == ";", 0, 1)
 
 // a recovering production: the parser schema, and no panic escapes
 // @ schema recovering memefish\.\(\*Parser\)\.NOTHING
 // @   props C03 C09
 // @   requires ParserInv(p)
+// @   requires[C10] faithful: faithful(p.Lexer)
 // @   requires[C04] wfargs: wfArgs()
 // @   requires[C05] argpos: argsWithin()
 // @   ensures ParserInv(p)
+// @   ensures[C10] faithfulw: faithfulW(p.Lexer)
+// @   ensures[C10] faithful: strong(self) ==> faithful(p.Lexer)
 // @   ensures (p.Lexer == old(p.Lexer) || fresh(p.Lexer)) && p.Lexer.File == old(p.Lexer.File)
 // @   ensures p.Lexer.Token.Pos >= old(p.Lexer.Token.Pos)
 // @   ensures[C09] errs: len(p.errors) >= old(len(p.errors))
@@ -475,6 +555,11 @@ package memefish
 // @   ensures[C03] strict: notNil(result) && result != nil ==> p.Lexer.Token.Pos > old(p.Lexer.Token.Pos)
 // @   ensures[C04] typed: result == nil || notNil(result)
 
+// the type of a STRUCT field ends where its type ends (C10: possibly at a split '>')
+// @ func memefish.(*Parser).parseFieldType
+// @   inherit parser
+// @   weak
+
 // @ func memefish.(*Parser).parseSimpleType
 // @   inherit parser
 // @   loop 0 invariant 0 - 1 <= rangeindex && rangeindex < len(simpleTypes) && len(p.errors) == old(len(p.errors)) && p.Lexer.Token.Pos > old(p.Lexer.Token.Pos)
@@ -491,9 +576,12 @@ package memefish
 // @ func memefish.(*Parser).parseTableExprSuffix
 // @   props C03 C09
 // @   requires ParserInv(p) && notNil(join) && wf(join)
+// @   requires[C10] faithful: faithful(p.Lexer)
 // @   requires[C05] argpos: argsWithin()
 // @   requires[C03] known: typeIs(join, "*ast.Unnest") || typeIs(join, "*ast.TableName") || typeIs(join, "*ast.PathTableExpr") || typeIs(join, "*ast.SubQueryTableExpr") || typeIs(join, "*ast.ParenTableExpr")
 // @   ensures ParserInv(p)
+// @   ensures[C10] faithfulw: faithfulW(p.Lexer)
+// @   ensures[C10] faithful: strong(self) ==> faithful(p.Lexer)
 // @   ensures (p.Lexer == old(p.Lexer) || fresh(p.Lexer)) && p.Lexer.File == old(p.Lexer.File)
 // @   ensures p.Lexer.Token.Pos >= old(p.Lexer.Token.Pos)
 // @   ensures[C09] errs: len(p.errors) >= old(len(p.errors))
@@ -506,8 +594,11 @@ package memefish
 // @ func memefish.(*Parser).parseQueryExprSuffix
 // @   props C03 C09
 // @   requires ParserInv(p) && notNil(e) && wf(e)
+// @   requires[C10] faithful: faithful(p.Lexer)
 // @   requires[C05] argpos: argsWithin()
 // @   ensures ParserInv(p)
+// @   ensures[C10] faithfulw: faithfulW(p.Lexer)
+// @   ensures[C10] faithful: strong(self) ==> faithful(p.Lexer)
 // @   ensures (p.Lexer == old(p.Lexer) || fresh(p.Lexer)) && p.Lexer.File == old(p.Lexer.File)
 // @   ensures p.Lexer.Token.Pos >= old(p.Lexer.Token.Pos)
 // @   ensures[C09] errs: len(p.errors) >= old(len(p.errors))
@@ -533,9 +624,12 @@ package memefish
 // @ schema parsersuffix memefish\.\(\*Parser\)\.(parseTableNameSuffix|parsePathTableExprSuffix|parseUnnestSuffix)
 // @   props C03 C09
 // @   requires ParserInv(p)
+// @   requires[C10] faithful: faithful(p.Lexer)
 // @   requires[C04] wfargs: wfArgs()
 // @   requires[C05] argpos: argsWithin()
 // @   ensures ParserInv(p)
+// @   ensures[C10] faithfulw: faithfulW(p.Lexer)
+// @   ensures[C10] faithful: strong(self) ==> faithful(p.Lexer)
 // @   ensures (p.Lexer == old(p.Lexer) || fresh(p.Lexer)) && p.Lexer.File == old(p.Lexer.File)
 // @   ensures p.Lexer.Token.Pos >= old(p.Lexer.Token.Pos)
 // @   ensures[C09] errs: len(p.errors) >= old(len(p.errors))
